@@ -220,12 +220,14 @@ def advPprfSender (O : Query → m Bytes) (sid : Bytes) (keys : List (Bytes × B
   pure (out.set j tr)
 
 /-- the acceptance condition of `advTree`'s message worked out from the code (up to collisions of the hashes):
-    a guess that avoids the corrupted word (`guess level ≠ side`) leaves the proof honest, and the receiver accepts
-    iff its own bit at that level avoids the corrupted side as well; a guess that uses the corrupted word is
-    accepted iff the receiver's whole path is the guessed one. -/
+    * a guess that avoids the corrupted word (`guess level ≠ side`) leaves the proof honest, and the receiver accepts
+      iff its own bit at that level avoids the corrupted side as well;
+    * a guess that uses the corrupted word is accepted iff the receiver's whole path is the guessed one — except at
+      the last level, where the only wrong leaf is either used by the receiver (its last bit = guess) or is exactly
+      its punctured leaf (last bit ≠ guess), which it never computes: there only the first K-1 path bits matter. -/
 def advAccepts (level side : Nat) (guess bit : Nat → Nat) : Bool :=
   if guess level ≠ side then bit level ≠ side
-  else (List.range K).all fun i => bit i = guess i
+  else (List.range K).all fun i => (level = K - 1 ∧ i = K - 1) ∨ bit i = guess i
 
 /-! ### tampering in transit, wire format (`#[repr(C)] struct PPRF`, `PPRFOutput`) -/
 
